@@ -84,6 +84,9 @@ C05Faulty ==
           \cup {W(Unwind(l), Merge(NP(<<"A">>, DivX("i10"), None), <<>>, <<>>), <<>>) : l \in Lists}
      ELSE {})
     \cup {W(Match(NP(<<"A">>, None, None)), Set(<<SetP("k", [e |-> "divprop", v |-> "i10", key |-> "p"])>>), <<>>),
+          \* several SET items in one row: all right-hand sides are evaluated against the pre-SET row, so a failing
+          \* later item must leave the earlier items of the same row unapplied (SET n.p = 2, n.k = 10 / n.p)
+          W(Match(NP(<<"A">>, None, None)), Set(<<SetP("p", Lit("i2")), SetP("k", [e |-> "divprop", v |-> "i10", key |-> "p"])>>), <<>>),
           W(Match(NP(<<"B">>, None, None)), Set(<<SetL("A")>>), <<>>),
           W(Match(NP(<<"A">>, None, None)), Create(NP(<<"A">>, [e |-> "divprop", v |-> "i10", key |-> "p"], None)), <<>>)}
 
